@@ -275,9 +275,7 @@ func (fx *FnExec) wellFormed(st *State, v Term, t types.Type) {
 	switch u := t.Underlying().(type) {
 	case *types.Pointer, *types.Map, *types.Chan, *types.Signature, *types.Struct, *types.Array:
 		fx.assume(st, And(Ge(v, Int(0)), Le(v, st.wm)))
-		if _, ok := u.(*types.Struct); ok {
-			fx.assume(st, Gt(v, Int(0)))
-		}
+		_ = u
 	case *types.Slice:
 		fx.assume(st, And(Ge(SlBase(v), Int(0)), Le(SlBase(v), st.wm), Ge(SlOff(v), Int(0)), Ge(SlLen(v), Int(0)), Le(SlLen(v), SlCap(v)),
 			Implies(Eq(SlBase(v), Int(0)), Eq(SlCap(v), Int(0)))))
